@@ -118,6 +118,73 @@ theorem pObsFuture_of_isclose (Po Ph Pf : Rat) (h : Py.isclose Ph Po = true) : p
   unfold pObsFuture
   simp [h]
 
+/-! ### What the property text does NOT fix: the formula between the stated identities
+
+The statement of C11 says of `P`: it lies in `[0,1]`, equals the observed frequency when `cm_future = cm_hist`, equals
+the simulated future frequency when `cm_hist` and `obs` have equal frequencies.  These three clauses do not determine
+the four-branch formula: `pObsFutureAlt` below satisfies all three (in exactly the form proved above for `pObsFuture`)
+and differs from `pObsFuture` on frequencies.  Hence a change of the library's formula that keeps the three clauses is
+reported through the broken `Gen = Model` obligation (`Lemmas.GenIsimipFreq.get_P_obs_future`) and the `P-grid`
+correspondence — *without* a failing input of the property, because there is none. -/
+
+/-- a DIFFERENT adjustment rule: the complementary-multiplicative branch whenever `Ph < Po` (also when the simulated
+    frequency decreases, where `pObsFuture` is additive) -/
+def pObsFutureAlt (Po Ph Pf : Rat) : Rat :=
+  if Py.isclose Ph Po = true then Pf
+  else if Pf ≤ Ph ∧ Ph > Po then Po * Pf / Ph
+  else if Ph < Po then 1 - (1 - Po) * (1 - Pf) / (1 - Ph)
+  else Po + Pf - Ph
+
+theorem stated_clauses_do_not_pin_formula :
+    ∃ g : Rat → Rat → Rat → Rat,
+      (∀ Po Ph Pf, 0 ≤ Po ∧ Po ≤ 1 → 0 ≤ Ph ∧ Ph ≤ 1 → 0 ≤ Pf ∧ Pf ≤ 1 → 0 ≤ g Po Ph Pf ∧ g Po Ph Pf ≤ 1) ∧
+      (∀ Po Ph, 0 ≤ Po ∧ Po ≤ 1 → g Po Ph Ph = if Py.isclose Ph Po = true then Ph else Po) ∧
+      (∀ Po Pf, g Po Po Pf = Pf) ∧
+      g (3/5) (2/5) (1/5) ≠ pObsFuture (3/5) (2/5) (1/5) := by
+  refine ⟨pObsFutureAlt, ?_, ?_, ?_, by decide +kernel⟩
+  · rintro Po Ph Pf ⟨o0, o1⟩ ⟨h0, h1⟩ ⟨f0, f1⟩
+    unfold pObsFutureAlt
+    split_ifs with c1 c2 c3
+    · exact ⟨f0, f1⟩
+    · obtain ⟨c2a, c2b⟩ := c2
+      have hpos : 0 < Ph := by linarith
+      constructor
+      · exact div_nonneg (mul_nonneg o0 f0) (le_of_lt hpos)
+      · rw [div_le_one hpos]
+        calc Po * Pf ≤ 1 * Pf := mul_le_mul_of_nonneg_right o1 f0
+          _ = Pf := one_mul _
+          _ ≤ Ph := c2a
+    · have hpos : 0 < 1 - Ph := by linarith
+      have t0 : 0 ≤ (1 - Po) * (1 - Pf) / (1 - Ph) :=
+        div_nonneg (mul_nonneg (by linarith) (by linarith)) (le_of_lt hpos)
+      have t1 : (1 - Po) * (1 - Pf) / (1 - Ph) ≤ 1 := by
+        rw [div_le_one hpos]
+        calc (1 - Po) * (1 - Pf) ≤ (1 - Ph) * (1 - Pf) := mul_le_mul_of_nonneg_right (by linarith) (by linarith)
+          _ ≤ (1 - Ph) * 1 := mul_le_mul_of_nonneg_left (by linarith) (by linarith)
+          _ = 1 - Ph := mul_one _
+      constructor <;> linarith
+    · have hne : Ph ≠ Po := by
+        intro e; rw [e] at c1; exact c1 (isclose_self Po)
+      have hgt : Po < Ph := lt_of_le_of_ne (not_lt.mp c3) (Ne.symm hne)
+      have : ¬ Pf ≤ Ph := fun h => c2 ⟨h, hgt⟩
+      push Not at this
+      constructor <;> linarith
+  · rintro Po Ph ⟨o0, o1⟩
+    unfold pObsFutureAlt
+    split_ifs with c1 c2 c3
+    · rfl
+    · have : Ph ≠ 0 := by linarith [c2.2]
+      field_simp
+    · have : 1 - Ph ≠ 0 := by linarith
+      field_simp
+      ring
+    · ring
+  · intro Po Pf
+    unfold pObsFutureAlt
+    simp [isclose_self]
+
+example : pObsFutureAlt (3/5) (2/5) (1/5) = 7/15 ∧ pObsFuture (3/5) (2/5) (1/5) = 2/5 := by decide +kernel
+
 /-! ### The number of entries sent to a bound: `round(n · P)` -/
 
 /-- **Frequency adjustment switched off**: `P` is the observed frequency, whatever the model frequencies are. -/
